@@ -81,7 +81,19 @@ pub fn arena() -> &'static mut Arena {
     }
 }
 
+/// More faults than this inside one case means the generated code is walking garbage (e.g. a
+/// cleanup loop over a corrupted length): the case is cut short through SIGABRT, which the host's
+/// handler reports like any other crash of the case in flight.
+pub const FAULT_FLOOD: usize = 64;
+
 impl Arena {
+    fn fault(&mut self, what: String) {
+        self.faults.push(what);
+        if self.faults.len() >= FAULT_FLOOD {
+            unsafe { libc::raise(libc::SIGABRT) };
+        }
+    }
+
     pub fn contains(&self, addr: u64) -> bool {
         let b = self.base as u64;
         addr >= b && addr < b + ARENA_SIZE as u64
@@ -133,11 +145,11 @@ impl Arena {
                 None if self.contains(addr) => format!("free of {addr:#x}, which is not a block of the allocator"),
                 None => format!("free of foreign pointer {addr:#x} (outside the arena: static, stack or dangling)"),
             };
-            self.faults.push(what);
+            self.fault(what);
             return;
         };
         if !b.live {
-            self.faults.push(format!("double free of block {addr:#x}+{}", b.size));
+            self.fault(format!("double free of block {addr:#x}+{}", b.size));
             return;
         }
         if !self.canaries_ok(addr, b.size) {
@@ -158,11 +170,11 @@ impl Arena {
             return self.malloc(new_size, 16);
         }
         let Some(b) = self.blocks.get(&addr).cloned() else {
-            self.faults.push(format!("realloc of {addr:#x}, which is not a block start"));
+            self.fault(format!("realloc of {addr:#x}, which is not a block start"));
             return self.malloc(new_size, 16);
         };
         if !b.live {
-            self.faults.push(format!("realloc of freed block {addr:#x}+{}", b.size));
+            self.fault(format!("realloc of freed block {addr:#x}+{}", b.size));
             return self.malloc(new_size, 16);
         }
         let n = self.malloc(new_size, 16);
